@@ -14,7 +14,7 @@ CHECKS = {
     "C05": ("model_checking",
             "TLA+ spec ImportClosure.tla model-checked by TLC; TLC-generated schedules replayed into the real collector through the verif gate; every recorded trace validated by TLC (ImportClosureTrace.tla)",
             "The collector's goroutine protocol (claim under mutex, read outside, errgroup join, depth-first flatten) is an explicit TLA+ specification; TLC checks ReadOnce/ClosureExact/OrderFixed/termination for every digraph and interleaving of small constants, generates (graph, depth limit, release order) behaviours that are forced onto the real goroutines with the blocking verif hook and a gated reader.Reader, and judges every recorded trace (claim/dup/cut events taken under the mutex, reads, return value) against the specification and the properties. Free-running traces under GOMAXPROCS 1..16 are validated the same way.",
-            "Trusts TLC, the gated reader and in-memory layout as stand-ins for golden-retriever/OS; goroutines with equal (file, depth) are treated as interchangeable; remote imports not exercised.",
+            "Trusts TLC, the gated reader and in-memory layout as stand-ins for golden-retriever/OS; goroutines with equal (file, depth) are treated as interchangeable; remote-style import spellings are served by the substituted reader, real git retrieval and version suffixes are not exercised.",
             "DESIGN.md §6 C05"),
     "C06": ("fault_enumeration",
             "TLC-enumerated fault plans (which file fails, how, and at which point of the retrieval order) from ImportClosure.tla delivered by a gated fault-injecting reader; traces validated by TLC",
